@@ -322,30 +322,79 @@ def run(tier):
     # failing cannot be commanded into standby; radio_mode keeps the operating value, so the next prepare_* forces standby.
     n_err = 0
     recovery_excused = []
+    sum_cache = {}
+
+    def make_node(ev, depth):
+        def node(bb, v):
+            vals = {v}
+            for e in ev.ev.get(bb, []):
+                nxt = set()
+                for (belief, chip, prev) in vals:
+                    if e[0] == 'cmd' and e[1] in LEAVES_STANDBY:
+                        prev = chip
+                        chip = 'out:' + e[1]
+                    elif e[0] == 'cmd' and e[1] == 'set_standby':
+                        chip = 'standby'
+                    elif e[0] == 'cmd' and e[1] == 'reset':
+                        chip = 'standby'
+                    elif e[0] == 'mode':
+                        belief = 'standby' if e[1] == 'Standby' else 'sleep' if e[1] == 'Sleep' else ('op:' + e[1])
+                    elif e[0] == 'call' and e[1] == 'start_rx':
+                        prev = chip
+                        chip = 'out:do_rx'
+                    elif e[0] == 'call' and e[1] in ('prepare_modem',):
+                        belief, chip = 'standby', 'standby'
+                    elif e[0] == 'call' and depth < 3:
+                        # any other operation of the driver called from this one: its effect on (belief, chip) along its successful returns
+                        outs = ok_summary(e[1], (belief, chip, prev), depth + 1)
+                        if outs:
+                            nxt |= outs
+                            continue
+                    nxt.add((belief, chip, prev))
+                vals = nxt
+            return frozenset(vals) if len(vals) != 1 else next(iter(vals))
+        return node
+
+    def ok_summary(callee, v, depth):
+        key = (callee, v)
+        if key in sum_cache:
+            return sum_cache[key]
+        sum_cache[key] = frozenset()
+        try:
+            bf2 = op_body(c, callee)
+        except CheckError:
+            return frozenset()
+        ev2 = Events(c, bf2)
+        if not ev2.all('cmd') and not ev2.all('call') and not ev2.all('mode'):
+            sum_cache[key] = frozenset([v])
+            return sum_cache[key]
+        node2_ = make_node(ev2, depth)
+        errb = {ex['bb'] for ex in rules.err_exits(bf2)}
+        st2_ = rules.forward_may(bf2, [0], [v], node_fn=node2_, edge_fn=lambda u, w, val: None if u in errb else val)
+        outs = set()
+        for b in bf2.body.blocks:
+            if b.cleanup or b.idx not in bf2.cfg.reach or b.term.k != 'return':
+                continue
+            for x in st2_.get(b.idx, set()):
+                r = node2_(b.idx, x)
+                outs |= r if isinstance(r, frozenset) else {r}
+        sum_cache[key] = frozenset(outs)
+        return sum_cache[key]
+
+    def is_recovery_call(nm):
+        """an operation that only wakes the chip and forces standby (enter_standby and the like): failing inside it is failing in the recovery"""
+        try:
+            ev2 = Events(c, op_body(c, nm))
+        except CheckError:
+            return False
+        cmds_ = {e[1] for bb, e in ev2.all('cmd')}
+        return bool(cmds_) and cmds_ <= {'ensure_ready', 'set_standby'} and not ev2.all('call')
     for name in public + ['prepare_modem', 'do_cold_start']:
         bf = op_body(c, name)
         ev = Events(c, bf)
         if not ev.all('cmd') and not ev.all('call'):
             continue
-
-        def node(bb, v):
-            belief, chip, prev = v
-            for e in ev.ev.get(bb, []):
-                if e[0] == 'cmd' and e[1] in LEAVES_STANDBY:
-                    prev = chip
-                    chip = 'out:' + e[1]
-                elif e[0] == 'cmd' and e[1] == 'set_standby':
-                    chip = 'standby'
-                elif e[0] == 'cmd' and e[1] == 'reset':
-                    chip = 'standby'
-                elif e[0] == 'mode':
-                    belief = 'standby' if e[1] == 'Standby' else 'sleep' if e[1] == 'Sleep' else ('op:' + e[1])
-                elif e[0] == 'call' and e[1] == 'start_rx':
-                    prev = chip
-                    chip = 'out:do_rx'
-                elif e[0] == 'call' and e[1] in ('prepare_modem',):
-                    belief, chip = 'standby', 'standby'
-            return (belief, chip, prev)
+        node = make_node(ev, 0)
 
         def edge(u, v_, val):
             # a set_standby / command that failed did not change the chip: handled by keeping the pre-state on `?` error edges
@@ -379,8 +428,9 @@ def run(tier):
                 res.ok('TYPESTATE(reasoned exception)', '%s: error exit %s#%d - %s' % (name, short_src, ex['ord'], R4_EXCEPTIONS[(name, short_src)]))
                 continue
             d1 = sorted(v for v in vals if v[0] in ('standby', 'sleep') and v[1].startswith('out') and not v[1].endswith(short_src))
-            d3 = sorted(v for v in vals if v[0].startswith('op:') and v[1].startswith('out') and short_src not in ('ensure_ready', 'set_standby'))
-            if short_src in ('ensure_ready', 'set_standby') and any(v[0].startswith('op:') for v in vals):
+            recovery = short_src in ('ensure_ready', 'set_standby') or is_recovery_call(short_src)
+            d3 = sorted(v for v in vals if v[0].startswith('op:') and v[1].startswith('out') and not recovery)
+            if recovery and any(v[0].startswith('op:') for v in vals):
                 recovery_excused.append(key)
             res.require(not d1, key + ':believes-standby', '%s can fail (%s) leaving radio_mode = standby/sleep while the chip may be out of standby %s' % (name, src, d1), short_site(bf, ex['bb']),
                         'TYPESTATE(no standby belief with the chip out of standby)', instance='%s: error exit %s#%d never leaves a standby belief with the chip out of standby' % (name, short_src, ex['ord']))
